@@ -264,6 +264,9 @@ STAGES['C01']['thorough'] += [('call-sequences-len4', 'MsgCalls', dict(MAXCALLS=
 STAGES['C12']['quick'].append(
     ('signed-producers-and-sinks', 'MimeBuild', cfg(MAXP='2', MAXE='1', MAXA='1', ENCS='{"qp", "8bit"}', SMIMES='{[key |-> "ecdsa", inter |-> FALSE]}',
                                                     FAULTS=PRODFAULTS + ' \\cup {[kind |-> "sink", slot |-> 0, when |-> ""]}', CCS='<<"crlf", "utf8">>')))
+# bodies far larger than any copy buffer (40 KB), written straight to the destination (single part / single file) or through a multipart
+STAGES['C12']['quick'].append(
+    ('large-bodies', 'MimeBuild', cfg(MAXP='1', MAXE='0', MAXA='1', ENCS='{"qp", "8bit"}', FENCS='{"", "8bit"}', FAULTS='{[kind |-> "sink", slot |-> 0, when |-> ""]}', CCS='<<"size40000">>')))
 # a boundary of the caller (and every signed message) makes the writer call multipart.Writer.SetBoundary: the step that
 # used to erase a pending error (fix 0642c98); short writes fail ONE call and accept the rest, which is what shows it
 STAGES['C12']['quick'].append(
